@@ -29,21 +29,28 @@ WANT = ('C18',)
 def run(ctx):
     sc.pylist_micro(ctx)
     sc.source_micro(ctx)
-    sc.run_generated(ctx, WANT, ctx.budget(70, 1500), ctx.budget(25, 400))
-    if not ctx.quick:
-        sc.small_scope(ctx, WANT, [(2, 2, 1), (3, 2), (2, 2, 2)], sc.FRONTENDS, with_wrappers=True)
+    sc.run_generated(ctx, WANT, ctx.budget(220, 1500), ctx.budget(60, 400))
+    if ctx.quick:
+        sc.small_scope(ctx, WANT, [(2, 1), (2, 2)], sc.FRONTENDS, with_wrappers=True)
+    else:
+        sc.small_scope(ctx, WANT, [(2, 1), (2, 2), (2, 2, 1), (3, 2), (2, 2, 2)], sc.FRONTENDS, with_wrappers=True)
         sc.small_scope(ctx, WANT, [(3, 3, 1), (3, 2, 2)], ['IterMessages', 'NMEAQueue'], with_wrappers=True)
 
 
 def hunt(ctx):
-    sc.small_scope(ctx, WANT, [(2, 1), (2, 2), (3, 1), (3, 2, 1), (2, 2, 2), (3, 3, 1), (3, 2, 2)],
-                   ['IterMessages', 'ByteStream', 'BinaryIOStream', 'NMEAQueue'], with_wrappers=True)
+    """All arrival orders (= interleavings x per-message permutations) of up to 3 in-flight messages with up to 3 fragments
+    plus singles, then random larger schedules; bounded by a time limit."""
+    import time
+    deadline = time.time() + (240 if ctx.quick else 900)
+    fast = ['IterMessages', 'ByteStream', 'BinaryIOStream', 'NMEAQueue']
+    two = ['IterMessages', 'NMEAQueue']
+    sc.small_scope(ctx, WANT, [(2, 1), (2, 2), (3, 1), (3, 2, 1), (2, 2, 2)], fast, with_wrappers=True, deadline=deadline)
     if not ctx.rep.violations:
-        sc.small_scope(ctx, WANT, [(3, 3, 2)], ['IterMessages', 'NMEAQueue'], with_wrappers=True)
+        sc.small_scope(ctx, WANT, [(3, 3, 1), (3, 2, 2)], two, with_wrappers=True, deadline=deadline)
     if not ctx.rep.violations:
-        sc.small_scope(ctx, WANT, [(3, 3, 3)], ['IterMessages', 'NMEAQueue'], with_wrappers=True, limit=120000)
+        sc.run_generated(ctx, WANT, 600, 0, frontends=fast, deadline=deadline)
     if not ctx.rep.violations:
-        sc.run_generated(ctx, WANT, 1500, 0, frontends=['IterMessages', 'ByteStream', 'BinaryIOStream', 'NMEAQueue'])
+        sc.small_scope(ctx, WANT, [(3, 3, 2), (3, 3, 3), (3, 3, 3, 1)], two, with_wrappers=True, limit=6000, deadline=deadline)
 
 
 def replay(ctx, data):
